@@ -130,8 +130,8 @@ func httpPost(form url.Values) *http.Request {
 var responseTypes = []string{"code", "id_token", "id_token token", "code id_token", "code id_token token", "code token"}
 
 func ZZ_C14_flows() {
-	nk := 2
-	ks := []int{0, 2} // RS256 (SHA-256) and ES384 (SHA-384)
+	nk := 3
+	ks := []int{0, 2, 3} // RS256 (SHA-256), ES384 (SHA-384) and ES512 (SHA-512): one key per hash function
 	if zz.Thorough() {
 		ks = []int{0, 1, 2, 3, 4, 5}
 		nk = len(ks)
